@@ -468,6 +468,7 @@ func (r *coRunner) exec(op coOp) {
 }
 
 func (r *coRunner) doJoin(ctx context.Context, op coOp) {
+	r.preFailover = nil // "keeps working" is judged on the first request after a failover
 	id := r.slotID(op.M)
 	pre := r.view()
 	topics := coTopicStrings(op.Topics)
@@ -845,6 +846,7 @@ func (r *coRunner) doCommit(ctx context.Context, op coOp) {
 }
 
 func (r *coRunner) doCleanup() {
+	r.preFailover = nil
 	pre := r.snapMem()
 	now := r.now()
 	r.c.cleanupGroups()
@@ -1487,7 +1489,15 @@ func TestVerifCoordinator(t *testing.T) {
 	if !coDetectKeep() {
 		rep.Notes = append(rep.Notes, "InMemoryStore.cloneConsumerGroup drops SessionTimeoutMs/RebalanceTimeoutMs (defect owned by C17): after a failover the new coordinator uses the 30 s defaults; modelled with e_keep=false")
 	}
-	rep.Cases(prop, "From KS Require Import lib.Base model.Coordinator corr.CoordinatorCorr.", "case", "check_case", coq, jsons)
+	// several smaller cases files: they are evaluated in parallel by bin/check
+	const chunk = 60
+	for i, k := 0, 0; i < len(coq) || i == 0; i, k = i+chunk, k+1 {
+		j := i + chunk
+		if j > len(coq) {
+			j = len(coq)
+		}
+		rep.Cases(fmt.Sprintf("%s_%02d", prop, k), "From KS Require Import lib.Base model.Coordinator corr.CoordinatorCorr.", "case", "check_case", coq[i:j], jsons[i:j])
+	}
 	rep.WriteAs(prop)
 	if len(rep.Failures) > 0 {
 		t.Logf("oracle failures: %s", strings.TrimSpace(rep.Failures[0].What))
